@@ -273,6 +273,15 @@ class World:
                 {p: (r.bare, dict(r.refs), set(r.objects), dict(r.index)) for p, r in self.repos.items()})
 
 
+def digest(w):
+    """Value-based summary of a world (comparable across two separately built worlds)."""
+    repos = {}
+    for p, r in w.repos.items():
+        repos[p] = (r.bare, dict(r.refs), sorted(r.objects), {n: e.sha for n, e in r.index.items()},
+                    r.index_lock is not None)
+    return (dict(w.files), set(w.dirs), repos)
+
+
 class StatResult:
     def __init__(self, mode):
         self.st_mode = mode
@@ -854,7 +863,7 @@ def pure_normpath():
     import ast
     import inspect
     import posixpath
-    ns = {"os": __import__("os")}
+    ns = dict(vars(posixpath))  # the fallback refers to module-level helpers (splitroot, _get_sep, ...)
     for node in ast.walk(ast.parse(inspect.getsource(posixpath))):
         if isinstance(node, ast.Try):
             for h in node.handlers:
